@@ -139,6 +139,7 @@ class _StateData:
         self.ran = False
         self.run = wrapper.run
         self.must_finish = wrapper.must_finish
+        self.timed = wrapper.duration is not None
 
         if hasattr(wrapper, "next_state"):
             self.next_state = wrapper.next_state
@@ -630,9 +631,14 @@ class StateMachine:
             if initial_call:
                 state.ran = True
                 state.start_time = new_state_start
-                state.expires = new_state_start + getattr(
-                    self, state.duration_attr, 0xFFFFFFFF
-                )
+                if state.timed:
+                    state.expires = new_state_start + getattr(
+                        self, state.duration_attr
+                    )
+                else:
+                    # only timed states expire (an untimed state may override an
+                    # inherited timed state whose duration tunable still exists)
+                    state.expires = 0xFFFFFFFF
 
                 if self.VERBOSE_LOGGING:
                     self.logger.info("%.3fs: Entering state: %s", tm, state.name)
